@@ -3,7 +3,7 @@
     [Print Assumptions].  Models: Syncer/Model.v (BlockFetcher + BlockProcessor after the F16
     repair), Syncer/Finder.v, Syncer/Session.v. *)
 From Coq Require Import ZArith NArith List Bool.
-From Verif Require Import Syncer.Model Syncer.Proofs Syncer.Theorems Syncer.Progress Syncer.Idle Syncer.Finder Syncer.FinderProofs Syncer.Session.
+From Verif Require Import Syncer.Model Syncer.Proofs Syncer.Theorems Syncer.Progress Syncer.Idle Syncer.HashFetcher Syncer.Finder Syncer.FinderProofs Syncer.Session.
 Import ListNotations.
 
 (** The invariant of the fetcher/processor loop is kept by every event (any response of any
@@ -154,3 +154,16 @@ Theorem C17_fullscan_range_covers_below_last_anchor : forall lc rc m fuel,
        else match hash_at lc (m - 1) with Some h => Some (h, m - 1)%N | None => None end).
 Proof. exact fullscan_range_covers_below_last_anchor. Qed.
 Print Assumptions C17_fullscan_range_covers_below_last_anchor.
+
+(** HashFetcher: whatever the peer answers, the hash sets handed to the BlockFetcher are
+    consecutive non-empty ranges from ancestor+1, hence agree with one hash list: the premise
+    [ev_ok] of the delivery theorems is what the HashFetcher guarantees. *)
+Theorem C17_hashsets_consecutive : forall maxreq target rs s,
+  consecutive (hf_last_no s) (hf_run maxreq target s rs).
+Proof. exact hashsets_consecutive. Qed.
+Print Assumptions C17_hashsets_consecutive.
+
+Theorem C17_hashsets_agree_with_one_list : forall maxreq target rs s,
+  exists L, Forall (fun x => ev_ok L (EHashSet (fst x) (snd x))) (hf_run maxreq target s rs).
+Proof. exact hashsets_agree_with_one_list. Qed.
+Print Assumptions C17_hashsets_agree_with_one_list.
